@@ -215,6 +215,89 @@ def ob_dofs_nodes():
     return Verdict(DISCHARGED, backend="ring-normal-form (symbolic node ids)", sub=n)
 
 
+def _replay_pairs(kind, nodes):
+    """native: the same node list with array values through the public API of a real thermal simulation."""
+    try:
+        from EasyFEA import Models, Simulations
+        mesh = patches.two_element_mesh("QUAD4")
+        simu = Simulations.Thermal(mesh, Models.Thermal(k=1.0, c=1.0))
+        nodes = np.asarray(nodes) % mesh.Nn
+        vals = 10.0 + np.arange(len(nodes), dtype=float)
+        if kind == "dirichlet":
+            simu.add_dirichlet(nodes, [vals], ["t"])
+            got = dict(zip(map(int, simu.Bc_dofs_Dirichlet()), map(float, simu.Bc_values_Dirichlet())))
+        else:
+            simu.add_neumann(nodes, [vals], ["t"])
+            got = dict(zip(map(int, simu.Bc_dofs_Neumann()), map(float, simu.Bc_values_Neumann())))
+            vals = vals / len(nodes)
+        want = {}
+        for n_, v in zip(nodes, vals):
+            want[int(n_)] = float(v)        # distinct nodes in the replay
+        return dict(confirmed=bool(got != want), got=got, want=want)
+    except Exception as e:
+        return dict(confirmed=False, raised=repr(e))
+
+
+def ob_add_pairs(kind):
+    """add_dirichlet / add_neumann: for every node list (any order, repeated nodes) and values given as a constant, a per-node array or a
+    function of position, the (dof, value) pairs recorded are exactly (dof(nodes[i], unknowns[d]), value_d of the i-th LISTED node)
+    (divided by the number of listed nodes for a concentrated load)."""
+    from EasyFEA.FEM._boundary_conditions import BoundaryCondition
+    n = 0
+    coordv = [[F(k * k + 1, 3), F(2 * k + 1, 5), F(7 - k, 2)] for k in range(6)]
+    node_lists = [list(p) for p in itertools.permutations(range(5), 3)][::3] + [[4, 2, 0, 3, 1], [5, 0], [3, 1, 3], [2, 2], [1]]
+    for unknowns, avail in ((["t"], ["t"]), (["y", "x"], ["x", "y"]), (["z", "x"], ["x", "y", "z"])):
+        for nodes in node_lists:
+            Nn = len(nodes)
+            names = [f"v{d}_{i}" for d in range(len(unknowns)) for i in range(Nn)] + ["k0", "k1", "a", "b"]
+            c = Ctx(names, nspare=1)
+            NPs = npshim.NP(c)
+            g = sx.module_globals("EasyFEA.Simulations._simu", np=NPs)
+            coord = np.empty((6, 3), dtype=object)
+            for k in range(6):
+                for j in range(3):
+                    coord[k, j] = c.const(coordv[k][j])
+            cap = {}
+
+            def record(pt, nds, dofsValues, dofs, unk, description=""):
+                cap["vals"], cap["dofs"] = np.asarray(dofsValues).ravel(), np.asarray(dofs).ravel()
+            me = sx.Mock("self", mesh=sx.Mock("mesh", coord=coord, Nn=6), problemType="pt", _Simu__Check_problemTypes=lambda pt: None,
+                         Get_unknowns=lambda pt=None: list(avail), _Bc_Add_Dirichlet=record, _Bc_Add_Neumann=record)
+            for nm in ("__Bc_evaluate", "__Bc_check_inputs", "__Bc_pointLoad", "Bc_dofs_nodes"):
+                fn_ = extract.compile_fn(extract.get(SP, f"_Simu.{nm}"), g)
+                object.__setattr__(me, ("_Simu" + nm) if nm.startswith("__") else nm, (lambda f_: (lambda *a, **k: f_(me, *a, **k)))(fn_))
+            f = extract.compile_fn(extract.get(SP, f"_Simu.add_{kind}"), g)
+            forms = {
+                "array": [np.array([c.sym(f"v{d}_{i}") for i in range(Nn)], dtype=object) for d in range(len(unknowns))],
+                "constant": [c.sym(f"k{d}") for d in range(len(unknowns))],
+                "function": [(lambda d: (lambda x, y, z: c.sym("a") * x + c.sym("b") * y * z + d))(d) for d in range(len(unknowns))],
+            }
+            for form, values in forms.items():
+                cap.clear()
+                f(me, np.array(nodes), values, unknowns)
+                if "dofs" not in cap:
+                    raise Refuted(f"add_{kind}({nodes}, {form} values, {unknowns}) records nothing", signature=f"pairs:{kind}:none", replay=_replay_pairs(kind, nodes))
+                got = sorted(((int(dd), str(v if isinstance(v, X) else c.const(v))) for dd, v in zip(cap["dofs"], cap["vals"])))
+                want = []
+                for i, nd in enumerate(nodes):
+                    for d, u in enumerate(unknowns):
+                        if form == "array":
+                            v = c.sym(f"v{d}_{i}")
+                        elif form == "constant":
+                            v = c.sym(f"k{d}")
+                        else:
+                            v = c.sym("a") * coord[nd, 0] + c.sym("b") * coord[nd, 1] * coord[nd, 2] + d
+                        if kind == "neumann":
+                            v = v / Nn
+                        want.append((nd * len(avail) + avail.index(u), str(v if isinstance(v, X) else c.const(v))))
+                want.sort()
+                n += 1
+                if got != want:
+                    raise Refuted(f"add_{kind}(nodes={nodes}, {form} values, unknowns={unknowns}): recorded (dof, value) pairs {got[:6]} differ from (dof of the i-th listed node, its value) {want[:6]}",
+                                  cex=dict(nodes=nodes, form=form, unknowns=unknowns), signature=f"pairs:{kind}:{form}", replay=_replay_pairs(kind, nodes))
+    return Verdict(DISCHARGED, backend="extracted methods on symbolic values (ring normal form), concrete node lists", sub=n)
+
+
 def ob_incremental():
     """_Solver_Apply_Dirichlet: prescribed values handed to the elimination are value - current[dofs] on the Newton path and zero for euler_explicit."""
     from EasyFEA.Simulations.Solvers import AlgoType
@@ -328,13 +411,16 @@ def _native_solve(et, physics, backend="scipy", dup=False, orphan=False, nonline
     n0 = np.where(np.isclose(c[:, 0], xmin))[0]
     n1 = np.where(np.isclose(c[:, 0], xmax))[0]
     nd = len(unk)
-    simu.add_dirichlet(n0, [0.0] * nd, unk)
+    # per-node ARRAY values on a node list that is not sorted by node number (reversed, rolled): each listed node holds its own value
+    n0 = np.roll(n0[::-1], 1)
+    arr0 = 0.01 * (1 + np.arange(len(n0)))
+    simu.add_dirichlet(n0, [arr0] + [0.0] * (nd - 1), unk)
     # unknowns listed in reverse (non-storage) order: values[i] belongs to unknowns[i]
     simu.add_dirichlet(n1, ([lambda x, y, z: 0.1 + 0.05 * y] + [0.0] * (nd - 1))[::-1], unk[::-1])
     expected = {}
-    for nn in n0:
+    for i0, nn in enumerate(n0):
         for d in range(nd):
-            expected[nn * nd + d] = 0.0
+            expected[nn * nd + d] = arr0[i0] if d == 0 else 0.0
     for nn in n1:
         expected[nn * nd] = 0.1 + 0.05 * c[nn, 1]
         for d in range(1, nd):
@@ -432,7 +518,8 @@ def ob_lagrange_vs_elim():
     c = np.asarray(mesh.coord)
     n0 = np.where(np.isclose(c[:, 0], c[:, 0].min()))[0]
     n1 = np.where(np.isclose(c[:, 0], c[:, 0].max()))[0]
-    simu.add_dirichlet(n0, [0.0], ["t"])
+    n0 = np.roll(n0[::-1], 1)          # the same conditions as _native_solve
+    simu.add_dirichlet(n0, [0.01 * (1 + np.arange(len(n0)))], ["t"])
     simu.add_dirichlet(n1, [lambda x, y, z: 0.1 + 0.05 * y], ["t"])
     mid = np.setdiff1d(np.arange(len(pre)), np.concatenate([n0, n1]))[:2]
     simu.add_neumann(mid, [0.3], ["t"])
@@ -632,6 +719,9 @@ def build(tier, seed):
     obs.append(Ob("C04.elim", ob_elim, (), "P", (f"{SOL}::__Solver_1",), clause="x[K] == xc and (A x - b)[U] == 0 for all blocks / sizes, given _Solve_Axb's contract"))
     obs.append(Ob("C04.partition", ob_partition, (), "P", (f"{SP}::_Simu.Bc_dofs_known_unknown",), clause="known = distinct sorted Dirichlet dofs, unknown = complement"))
     obs.append(Ob("C04.dofs_nodes", ob_dofs_nodes, (), "P", (f"{BC}::BoundaryCondition.Get_dofs_nodes",), clause="dof = node*dim + index(unknown), node-major order", timeout=300))
+    for kind in ("dirichlet", "neumann"):
+        obs.append(Ob(f"C04.add.pairs.{kind}", ob_add_pairs, (kind,), "P", (f"{SP}::_Simu.add_{kind}", f"{SP}::_Simu.__Bc_evaluate", f"{SP}::_Simu.Bc_dofs_nodes") + ((f"{SP}::_Simu.__Bc_pointLoad",) if kind == "neumann" else ()),
+                      clause="every listed node receives ITS value: recorded (dof, value) pairs == (dof(nodes[i], unknown), value_i) for any node order, repeated nodes, constant / array / function values (symbolic values; 25 node lists)"))
     obs.append(Ob("C04.incremental", ob_incremental, (), "P", (f"{SP}::_Simu._Solver_Apply_Dirichlet",), clause="Newton: value - current; euler_explicit: zero"))
     obs.append(Ob("C04.orphans", ob_orphans, (), "P", (f"{SP}::_Simu.__Solver_Get_Dirichlet_A_x",), clause="unit diagonal on orphan dofs only; entered values summed per dof"))
     obs.append(Ob("C04.backend.callsite", ob_backend_callsite, (), "P", (f"{SOL}::_Solve_Axb",), clause="library solver calls satisfy the callee's documented argument kinds"))
